@@ -253,6 +253,17 @@ theorem model_save_passes_outdated_clause (s : JState) (w : World) (linked : Lis
   have := progOutdated_false_oracle s w hc 64 q.1 q.2 (by simpa using hany q hq)
   simp [this]
 
+/-! ### the clauses `damaged-binary-used` and `foreign-binary-used` -/
+
+/-- **model_use_passes_damaged_and_foreign_clauses**: the oracle flags the use of a binary it knows to be damaged (checksum),
+    written by another driver build or configuration (magic, driver id, config id) or saved for another program (name).
+    When the model answers "use" the binary is none of these. -/
+theorem model_use_passes_damaged_and_foreign_clauses (w : World) (name : String) (h : loadBinary w name = .use) :
+    ∃ b, w.bins.lookup (binPath w name) = some b ∧ b.intact = true ∧ b.magic = magicId ∧ b.driverId = driverId ∧
+      b.configId = w.configId ∧ (b.name.length = 0 ∨ b.name = name) := by
+  obtain ⟨_, b, _, hb, h0, h1, h2, h3, _, _, _, _, hn, _⟩ := never_stale w name h
+  exact ⟨b, hb, h0, h1, h2, h3, hn⟩
+
 /-! ### the clause `include-shadowed-by` -/
 
 /-- what `inc_open` opens is the first candidate that exists -/
